@@ -128,6 +128,15 @@ fn one(rng: &mut Rng, fmt: &str, out: &mut UnitResult, ctxj: serde_json::Value) 
             }
         }
     }
+    if fmt == "xlsx" && book.sheets.len() >= 2 && rng.chance(1, 3) {
+        // the same name in several scopes (print areas, filter ranges): one entry per definition
+        for k in 0..2 + rng.usize(2) {
+            let v = format!("Sheet{}!$A$1:$C${}", k + 1, 5 + k);
+            book.defined_names.push(("_xlnm.Print_Area".to_string(), v.clone()));
+            want_names.push(("_xlnm.Print_Area".to_string(), v));
+        }
+        out.feat("xlsx:name_in_several_scopes");
+    }
     out.feat(&format!("defined_names:{}", n_names.min(2)));
     let want_meta: Vec<(String, SheetType, SheetVisible)> = book.sheets.iter().map(|s| (s.name.clone(), st(s.kind, fmt), sv(s.visible))).collect();
     let fail = |out: &mut UnitResult, class: String, d: serde_json::Value, bytes: &[u8]| out.fail(class, json!({"ctx": ctxj, "detail": d, "input_hex": hex(bytes)}));
@@ -237,7 +246,13 @@ fn one(rng: &mut Rng, fmt: &str, out: &mut UnitResult, ctxj: serde_json::Value) 
             verify!(open!(Xls<_>, bytes), bytes, true);
         }
         _ => {
-            let bytes = crate::enc::ods::encode(&book, &OdsChoices::random(rng), rng).bytes;
+            let oc = OdsChoices::random(rng);
+            for f in oc.features() {
+                if f == "ods:dde_links" {
+                    out.feat(&f);
+                }
+            }
+            let bytes = crate::enc::ods::encode(&book, &oc, rng).bytes;
             verify!(open!(Ods<_>, bytes), bytes, false);
         }
     }
@@ -260,7 +275,7 @@ impl Prop for C16 {
         tier.pick(16, 160)
     }
     fn mandatory(&self, _t: Tier) -> Vec<String> {
-        ["fmt:xlsx", "fmt:xlsb", "fmt:xls", "fmt:ods", "kind:Work", "kind:Chart", "kind:Dialog", "kind:Macro", "kind:Vba", "visible:Visible", "visible:Hidden", "visible:VeryHidden", "date1904", "sheets>8", "defined_names:0", "defined_names:1", "defined_names:2"]
+        ["fmt:xlsx", "fmt:xlsb", "fmt:xls", "fmt:ods", "kind:Work", "kind:Chart", "kind:Dialog", "kind:Macro", "kind:Vba", "visible:Visible", "visible:Hidden", "visible:VeryHidden", "date1904", "sheets>8", "defined_names:0", "defined_names:1", "defined_names:2", "ods:dde_links", "xlsx:name_in_several_scopes"]
             .iter().map(|s| s.to_string()).collect()
     }
     fn run_unit(&self, ctx: &Ctx, unit: u64, out: &mut UnitResult) {
